@@ -26,6 +26,8 @@ def main():
     wt = f"/tmp/mut/{pid}"
     out = f"{wt}/out/{k}"
     patch = f"{out}/patch.diff"
+    if os.path.exists(f"{out}/patch.rebased.diff") and "--rebased" in sys.argv:
+        patch = f"{out}/patch.rebased.diff"
     if not os.path.exists(patch):
         print(f"NO-PATCH {pid}/{k}"); return 3
     run_md = open(f"{out}/demo/RUN.md").read() if os.path.exists(f"{out}/demo/RUN.md") else ""
@@ -35,6 +37,10 @@ def main():
         dst = m.group(1)
         places[os.path.basename(dst)] = dst
     demo_files = [f for f in os.listdir(f"{out}/demo") if f.endswith(".rs")]
+    mdir = re.search(r"([\w\-]+/tests)/", run_md)
+    for f in demo_files:
+        if f not in places and mdir:
+            places[f] = f"{mdir.group(1)}/{f}"
     for f in demo_files:
         if f not in places:
             print(f"PARSE-FAIL {pid}/{k}: no placement for {f} in RUN.md"); return 4
